@@ -15,7 +15,8 @@
 (***************************************************************************)
 EXTENDS Rat, Sequences, FiniteSets, TLC, SequencesExt, FiniteSetsExt, Json, IOUtils
 
-CONSTANTS StripsLastChar, MaxLines
+CONSTANTS StripsLastChar, MaxLines,
+          DigitFirstOnly     \* the reader keeps only lines whose first character is a digit ("skip titles"): not the tree as it is
 
 -----------------------------------------------------------------------------
 (* (a) reader *)
@@ -65,14 +66,16 @@ LineKinds == {"data", "data-trail", "comment", "blank", "indented"}
 Lines == [kind : LineKinds, x : 1..3, y : {<<4>>, <<4, 5>>}]
 Files == {f \in UNION {[1..n -> Lines] : n \in 1..MaxLines} : \A a, b \in 1..Len(f) : a # b => f[a].x # f[b].x}
 
-VARIABLES file, finalNewline, i, rows, pc, crashed
-vars == <<file, finalNewline, i, rows, pc, crashed>>
+\* how the x of every data line of the file is spelled: 3, +3, .3 (three tenths) or -3 - all of them numbers for float()
+XSpellings == {"plain", "plus", "dot", "neg"}
+VARIABLES file, finalNewline, xsp, i, rows, pc, crashed
+vars == <<file, finalNewline, xsp, i, rows, pc, crashed>>
 
 IsData(l) == l.kind \in {"data", "data-trail", "indented"}
 \* what the user means: every data line contributes (x, y); comment and blank lines nothing
 DataOf(f) == {<<f[k].x, f[k].y>> : k \in {j \in 1..Len(f) : IsData(f[j])}}
 
-Init == /\ file \in Files /\ finalNewline \in BOOLEAN /\ i = 1 /\ rows = {} /\ pc = "lines" /\ crashed = FALSE
+Init == /\ file \in Files /\ finalNewline \in BOOLEAN /\ xsp \in XSpellings /\ i = 1 /\ rows = {} /\ pc = "lines" /\ crashed = FALSE
 
 \* for line in fileobj: line = line[:-1]; line = line.strip(); skip blank / '#'; (x, y) = split(line)[:2]
 ReadLine == /\ pc = "lines" /\ i <= Len(file)
@@ -81,11 +84,11 @@ ReadLine == /\ pc = "lines" /\ i <= Len(file)
                    \* characters lost by [:-1] on a final line without newline: the last character of the line
                    ylost == StripsLastChar /\ lastNoNL /\ l.kind \in {"data", "indented"}     \* "data-trail" loses its trailing blank only
                    y2 == IF ylost THEN SubSeq(l.y, 1, Len(l.y) - 1) ELSE l.y IN
-               IF ~IsData(l) THEN UNCHANGED <<rows, crashed>>
+               IF ~IsData(l) \/ (DigitFirstOnly /\ xsp # "plain") THEN UNCHANGED <<rows, crashed>>
                ELSE IF y2 = <<>> THEN crashed' = TRUE /\ UNCHANGED rows            \* only one field left: the unpacking fails
                ELSE rows' = rows \cup {<<l.x, y2>>} /\ UNCHANGED crashed
-            /\ i' = i + 1 /\ UNCHANGED <<file, finalNewline, pc>>
-Finish == /\ pc = "lines" /\ i > Len(file) /\ pc' = "done" /\ UNCHANGED <<file, finalNewline, i, rows, crashed>>
+            /\ i' = i + 1 /\ UNCHANGED <<file, finalNewline, xsp, pc>>
+Finish == /\ pc = "lines" /\ i > Len(file) /\ pc' = "done" /\ UNCHANGED <<file, finalNewline, xsp, i, rows, crashed>>
 Next == ReadLine \/ Finish
 Spec == Init /\ [][Next]_vars
 
